@@ -48,7 +48,11 @@ fn apply(g: &mut dyn DynGen, op: &Op) -> Result<Option<Out>, SutFail> {
 }
 
 fn fmt_of(x: u64) -> SnapFmt {
-    match x % 13 {
+    match x % 17 {
+        13 => SnapFmt::CompactValue,
+        14 => SnapFmt::CompactFlatten,
+        15 => SnapFmt::CompactTagged,
+        16 => SnapFmt::CompactUntagged,
         11 => SnapFmt::BincodeVarint,
         12 => SnapFmt::BincodeBigEndian,
         7 => SnapFmt::Toml,
@@ -68,9 +72,9 @@ fn fmt_of(x: u64) -> SnapFmt {
 /// the formats that buffer the whole document (flatten / tagged / untagged) cost ten times more: drawn less often
 fn pick_fmt(rng: &mut Prng) -> u64 {
     if rng.chance(1, 9) {
-        8 + rng.below(3)
+        *rng.pick(&[8u64, 9, 10, 14, 15, 16])
     } else {
-        *rng.pick(&[0u64, 1, 2, 3, 4, 5, 6, 7, 11, 12])
+        *rng.pick(&[0u64, 1, 2, 3, 4, 5, 6, 7, 11, 12, 13])
     }
 }
 
